@@ -585,7 +585,7 @@ def build_vfs(tree, top=TOP):
         imports = []
         for i, (edge, sub) in enumerate(children):
             loc, media, avail = edge
-            cname = (name if name != 't' else '') + 'ab'[i]
+            cname = (name if name != 't' else '') + 'abc'[i]
             href = loc_href(loc, cname)
             form = 'su'[(depth + i) % 2]
             imports.append([href, form, media])
@@ -1106,6 +1106,25 @@ def shared_family():
             yield [CONTENT_DEFAULT, [[e, [CONTENT_DEFAULT, [[d, [CONTENT_DEFAULT, [[list(d), _leaf()]]]]]]]]], [['a', 'aaa', m]]
 
 
+def wide_family():
+    """family E: three @import rules in one sheet (at the top, and in an imported sheet followed by one more at the top), each
+    merged, kept because its target is missing, or kept because its group cannot be wrapped: the kept ones stay in cascade order"""
+    kinds = {
+        'merged': [['same', '', 'present'], CONTENT_DEFAULT],
+        'missing': [['child', 'print', 'missing'], CONTENT_DEFAULT],
+        'missing-all': [['same', '', 'missing'], CONTENT_DEFAULT],
+        'unwrappable': [['sibling', 'print', 'present'], 'fontface'],
+    }
+    names = sorted(kinds)
+    for a in names:
+        for b in names:
+            for c in names:
+                ch = [[list(kinds[k][0]), _leaf(kinds[k][1])] for k in (a, b, c)]
+                yield [CONTENT_DEFAULT, ch]
+                # the same three inside an imported sheet, one more kept @import behind it at the top
+                yield [CONTENT_DEFAULT, [[list(EDGE_DEFAULT), [CONTENT_DEFAULT, [[list(e), _copy(s)] for e, s in ch]]], [['parent', 'print', 'missing'], _leaf()]]]
+
+
 def path_family():
     """family P: depth-1 trees below a real file, every edge x leaf content"""
     for e in EDGES:
@@ -1178,6 +1197,7 @@ def plan(tier):
                 shards.append(['dev', si, f, vi])
     shards.append(['path'])
     shards.append(['shared'])
+    shards.append(['wide'])
     return shards
 
 
@@ -1223,6 +1243,11 @@ def run_shard(shard, tier, seed):
     elif kind == 'path':
         for tree in path_family():
             run_flatten_case(res, tree, MODE_PATH, 'P')
+    elif kind == 'wide':
+        for tree in wide_family():
+            for mode in MODES_B:
+                run_flatten_case(res, tree, mode, 'E')
+        res.sample({'kind': 'flatten', 'tree': tree, 'mode': MODES_B[0]})
     elif kind == 'shared':
         for tree, extra in shared_family():
             for mode in MODES_B:
